@@ -417,26 +417,88 @@ def run_samples_case(c):
 
 
 def run_dbseq_case(c):
-    """save_samples / commit / save_samples again (a later update of the same fit) / load"""
+    """One fit through DatabasePaths that is updated several times (perform_update: save_samples_summary then
+    save_samples, every iterations_per_update and once at the end), with or without a commit in between, then loaded."""
     priors = make_priors(c["npri"], c.get("kinds", ["u"]))
     model = build(c["tree"], priors)
     tag = "seq%d_%d" % (os.getpid(), c["idx"])
     out = {}
-    first = make_samples({**c, "rows": c["rows"][: c["first"]]}, model)
-    second = make_samples(c, model)
-    out["orig"] = view(second, model)
-    out["first"] = view(first, model)
+    updates = c.get("updates") or [c["first"], len(c["rows"])]
+    commits = c.get("commits") or [True] * (len(updates) - 1)
+    stages = [make_samples({**c, "rows": c["rows"][:k]}, model) for k in updates]
+    out["orig"] = view(stages[-1], model)
+    # the samples rows that were in place at the first commit (what the recorded stale-samples defect returns)
+    committed = [k for k, cm in enumerate(commits) if cm]
+    out["first"] = view(stages[committed[0] if committed else 0], model)
     dp = db_paths(model, tag, True)
-    dp.save_samples(first)
-    session().commit()
-    if c.get("new_paths"):
-        session().expire_all()
-        dp = db_paths(model, tag, True)
-    dp.save_samples(second)
+    dp.save_all({})                  # pre_fit_output: stores the model, commits
+    last_summary = None
+    for k, smp in enumerate(stages):
+        if k > 0 and commits[k - 1]:
+            session().commit()
+            if c.get("new_paths"):
+                session().expire_all()
+                dp = db_paths(model, tag, True)
+        summ = attempt(lambda: smp.summary())
+        last_summary = None
+        if "ok" in summ:
+            saved = attempt(lambda: dp.save_samples_summary(summ["ok"]) or True)
+            if "ok" in saved:
+                last_summary = summ["ok"]
+            else:
+                out["summary_save"] = saved
+        dp.save_samples(smp)
     ident = dp.identifier
     r = attempt(lambda: db_read(ident, model))
     out["db_all"] = r["ok"] if "ok" in r else {"load": r}
+    # the json rows of the fit, read by a later session / process and through the aggregator item
+    fit = session().query(Fit).filter(Fit.id == ident).one()
+    out["info_json"] = attempt(lambda: fit.get_json("samples_info"))
+    out["info_expected"] = json.loads(json.dumps(stages[-1].samples_info))
+    out["json_rows"] = attempt(lambda: sorted(p.name for p in fit.jsons))
+    if last_summary is not None:
+        out["summary_orig"] = view_summary(last_summary, model)
+        dp2 = db_paths(model, tag, True)
+        lo = attempt(lambda: dp2.load_samples_summary())
+        if "ok" in lo and lo["ok"] is None:
+            out["db_summary"] = {"load": {"exc": "NoSummary", "msg": "load_samples_summary returned None"}}
+        else:
+            out["db_summary"] = view_summary(lo["ok"], model) if "ok" in lo else {"load": lo}
+        lo = attempt(lambda: fit["samples_summary"])
+        out["fit_summary"] = view_summary(lo["ok"], fit.model) if "ok" in lo else {"load": lo}
     return out
+
+
+def run_jsonhist_case(c):
+    """Fit.set_json / get_json under an arbitrary history of saves, commits and re-queries."""
+    s = session()
+    ident = "jh%d_%d" % (os.getpid(), c["idx"])
+    fit = Fit(id=ident, is_complete=False)
+    s.add(fit)
+    for op in c["ops"]:
+        if op["op"] == "set":
+            fit.set_json(op["name"], {"token": op["tok"], "name": op["name"]})
+        elif op["op"] == "commit":
+            s.commit()
+        elif op["op"] == "expire":
+            s.commit()
+            s.expire_all()
+        elif op["op"] == "requery":
+            s.commit()
+            s.expire_all()
+            fit = s.query(Fit).filter(Fit.id == ident).one()
+    s.commit()
+    s.expire_all()
+    fit = s.query(Fit).filter(Fit.id == ident).one()
+    obs = []
+    for name in c["names"]:
+        try:
+            d = fit.get_json(name)
+            tok = d["token"] if d.get("name") == name and set(d) == {"token", "name"} else -1
+        except KeyError:
+            tok = None
+        obs.append([name, tok, sum(1 for p in fit.jsons if p.name == name)])
+    return {"obs": obs}
 
 
 def run_fit_case(c):
@@ -485,6 +547,8 @@ def run_case(c):
         return run_dbseq_case(c)
     if kind == "fit":
         return run_fit_case(c)
+    if kind == "jsonhist":
+        return run_jsonhist_case(c)
     raise ValueError(kind)
 
 
